@@ -111,6 +111,7 @@ def run(pid, spec, tier, seed):
             finish(pid, spec, tier, seed, t0, None, [], [], 1, notes + ["harness build failed"], {})
             return 1
         from . import facts
+        C.pipe_acquire()
         facts.regenerate(["consts"])
         facts_err = None
         try:
@@ -127,6 +128,7 @@ def run(pid, spec, tier, seed):
             notes.append("leanchecker re-checked %s: %s" % (" ".join(spec["lean"]), "ok" if ok else "FAILED"))
             if not ok:
                 proof_broken.append("leanchecker rejects the compiled modules: " + out[-500:])
+        C.pipe_release()
         if facts_err:
             proof_broken.append("<regenerated facts: %s>" % facts_err[-400:])
         have_driver = os.path.exists(C.driver_path(DRIVER))
